@@ -1,10 +1,10 @@
 (* C12 - Unmanaged pool calls never panic and close() is final.
    This file only states the theorems (closed by [exact]) and prints their assumptions.
-   Model: Unmanaged/Model.v (the code after the repairs of D7 and D8); thread level: the three
+   Model: Unmanaged/Model.v (the code after the repairs of D7, D8 and D14); thread level: the three
    steps of close() interleave with every step of every other operation. *)
 From Coq Require Import List ZArith Bool Arith.
 From DP Require Import Common.Tab Unmanaged.Model Unmanaged.Contrib Unmanaged.InvQ Unmanaged.InvStepQ
-  Unmanaged.InvG Unmanaged.InvId Unmanaged.Reach.
+  Unmanaged.InvG Unmanaged.InvId Unmanaged.Reach Unmanaged.CloseFinal.
 Import ListNotations.
 Open Scope Z_scope.
 
@@ -77,12 +77,34 @@ Theorem c12_closed_rest_empty : forall c tr s,
   run c (init c) tr = Some s -> closed s = true -> at_rest s -> vec s = [].
 Proof. exact closed_rest_empty. Qed.
 
-(* an object returned to a closed pool is destroyed by the returning thread *)
+(* an object returned to a closed pool is destroyed by the returning thread, in the one step of
+   Object::drop (its lock region): it is never queued, so no caller can be handed it *)
 Theorem c12_returned_destroyed : forall c s t o,
   closed s = true -> pcof s t = DStart o ->
-  exists s', run c s [Step t; Step t; Step t; Step t; Step t] = Some s'
-    /\ In o (dead s') /\ vec s' = [] /\ pcof s' t = PDone RUnit.
+  exists s', step c s (Step t) = Some s'
+    /\ In o (dead s') /\ vec s' = vec s /\ size s' = size s - 1 /\ pcof s' t = PDone RUnit.
 Proof. exact returned_destroyed. Qed.
+
+(* a closed pool takes no object in: every step of every operation leaves its queue as it is, pops the
+   head or clears it (after the repair of D14, Object::drop included) *)
+Theorem c12_closed_pool_takes_nothing : forall c s l s',
+  closed s = true -> step c s l = Some s' ->
+  vec s' = vec s \/ vec s' = tl (vec s) \/ vec s' = [].
+Proof. exact closed_vec. Qed.
+
+(* once close() has returned the pool holds no objects - in every later state of every history, whatever
+   is returned, added or popped afterwards and however the threads interleave ("the pool holds no
+   objects, objects returned later are dropped") *)
+Theorem c12_after_close_empty : forall c tr s u,
+  run c (init c) tr = Some s -> In (ECloseDone u) (log s) -> vec s = [].
+Proof. exact after_close_empty. Qed.
+
+(* so even a caller that obtained its permit before the close and pops after close() has returned is
+   handed nothing: its pop comes back empty (and it answers Closed, c12_closed_answer_truthful) *)
+Theorem c12_late_pop_finds_nothing : forall c tr s t w rm u,
+  run c (init c) tr = Some s -> In (ECloseDone u) (log s) -> pcof s t = GPop w rm ->
+  step c s (Step t) = Some (setpc s t (GPopped w rm None)).
+Proof. exact late_pop_closed. Qed.
 
 (* ------------------------------------------------------------------ non-vacuity *)
 Definition cfg_iter1 := {| how := CIter; max0 := 1; ptmo := TNone; rt := false |}.
@@ -123,6 +145,23 @@ Example c12_nonvacuous_parked :
   exists s, run cfg_new1 (init cfg_new1) tr_parked = Some s /\ pcof s 0 = PDone RClosed /\ avail s = 0.
 Proof. eexists. vm_compute. repeat split. Qed.
 
+(* the history of D14: task 1 (try_get) holds a permit from before the close and has not popped; close()
+   runs completely; object 1, checked out all the time, is returned afterwards; task 1 continues: its pop
+   finds nothing, it answers Closed; both objects are destroyed (0 by close(), 1 by the returning
+   thread), nothing is queued or handed out *)
+Definition cfg_iter2 := {| how := CIter; max0 := 2; ptmo := TNone; rt := false |}.
+Definition tr_d14 : list label :=
+  [Start 0 (OpGet STry false); Step 0; Step 0; Step 0;
+   Start 1 (OpGet STry false); Step 1;
+   Start 2 OpClose; Step 2; Step 2; Step 2;
+   Start 3 (OpDrop 1); Step 3;
+   Step 1; Step 1].
+Example c12_nonvacuous_d14 :
+  exists s, run cfg_iter2 (init cfg_iter2) tr_d14 = Some s
+    /\ In (ECloseDone 2) (log s) /\ pcof s 1 = PDone RClosed /\ pcof s 3 = PDone RUnit
+    /\ vec s = [] /\ out s = [] /\ loose s = [] /\ size s = 0 /\ at_rest s.
+Proof. eexists. vm_compute. repeat split. auto 10. Qed.
+
 Check c12_pop_never_fails_while_open : forall c tr s t w rm,
   run c (init c) tr = Some s -> closed s = false -> pcof s t = GPop w rm -> vec s <> [].
 Print Assumptions c12_pop_never_fails_while_open.
@@ -136,3 +175,6 @@ Print Assumptions c12_after_close_add.
 Print Assumptions c12_closed_empty.
 Print Assumptions c12_closed_rest_empty.
 Print Assumptions c12_returned_destroyed.
+Print Assumptions c12_closed_pool_takes_nothing.
+Print Assumptions c12_after_close_empty.
+Print Assumptions c12_late_pop_finds_nothing.
